@@ -339,10 +339,14 @@ fn run_cmp(a: &Args, o: &mut Obs) {
     // random longer pairs: prefixes, equal, one-byte differences, non-UTF-8
     let mut r = Rng::new(mix2(seed, shard as u64 + 77));
     for k in 0..nrand {
-        let n = r.below(40);
+        // the reduced (Miri, other targets) mode concentrates on what word-at-a-time code gets wrong: short lengths
+        // around the word sizes, one-byte differences at every position, two differences of opposite sense
+        let reduced = a.flag("no-exhaustive");
+        let n = if reduced { 1 + r.below(26) } else { r.below(40) };
         let mut x: Vec<u8> = (0..n).map(|_| *r.pick(&[0u8, 1, b'a', b'z', 0x7f, 0x80, 0xff, b'"'])).collect();
         let mut y = x.clone();
-        match r.below(6) {
+        let class = if reduced { *r.pick(&[3usize, 3, 3, 3, 5, 5, 5, 0, 1, 2]) } else { r.below(6) };
+        match class {
             0 => {}
             5 => {
                 // two differing bytes of opposite sense inside one 8-byte block (word-at-a-time comparisons must
